@@ -67,6 +67,7 @@ inductive QV where
   | empty                -- absent, or present with the empty string
   | valid (v : Val)
   | invalid
+  | garbled              -- the value has a malformed percent-escape: `url.ParseQuery` drops the pair, `Query()` ignores the error
   deriving DecidableEq, Repr
 
 inductive Body where
@@ -126,9 +127,9 @@ def unmodelled : Resp := { status := 0, body := .docs 0, ops := [] }
 
 /-! ### query parsing: `PinOptions.FromQuery` -/
 
-/-- `url.Values.Get`: first occurrence; absent = "" -/
+/-- `r.URL.Query().Get`: first occurrence among the pairs that survive `url.ParseQuery`; absent = "" -/
 def getq (q : List (String × QV)) (k : String) : QV :=
-  match q.find? (fun p => p.1 == k) with
+  match q.find? (fun p => p.1 == k && p.2 != .garbled) with
   | some p => p.2
   | none => .empty
 
